@@ -123,7 +123,9 @@ func (b *batch) DelCurrent(it storage.Iter) {
 		return
 	}
 
-	if bytes.Compare(b.get(it.Key()), it.Val()) != 0 {
+	// b.get returns nil for a key that is missing or deleted in this batch: that is never the record
+	// the iterator has shown, even when the record's value is empty
+	if cur := b.get(it.Key()); cur == nil || !bytes.Equal(cur, it.Val()) {
 		b.err = storage.ErrCASFailed
 	}
 
